@@ -77,11 +77,23 @@ def showOutcome : Outcome → String
 def parseClassList (s : String) : Option (List Nat) :=
   if s = "-" then some [] else (s.splitOn ",").mapM String.toNat?
 
+def parseStored (s : String) : Option StoredProb :=
+  if s = "NaN" then some .nan
+  else if s = "+Inf" then some .posInf
+  else if s = "-Inf" then some .negInf
+  else (parseRat s).map .fin
+
+def showStored : StoredProb → String
+  | .nan => "NaN"
+  | .posInf => "+Inf"
+  | .negInf => "-Inf"
+  | .fin q => showRat q
+
 def parseClassEntry (s : String) : Option (Nat × PerClass) :=
   match s.splitOn ":" with
   | [sc, p, outs] => do
     let sc ← sc.toNat?
-    let p ← parseRat p
+    let p ← parseStored p
     let os ← if outs = "" then some [] else (outs.splitOn ",").mapM parseOutcome
     some (sc, { execs := os, prob := p })
   | _ => none
@@ -94,10 +106,10 @@ def sortByKey (m : ClassMap) : ClassMap := m.foldr insertByKey []
 
 def showStats (s : Stats) : String :=
   -- an empty entry (created on the fly for an unseen size class) means the same as no entry
-  let m := (sortByKey s.classes).filter (fun e => !(e.2.execs.isEmpty && e.2.prob == 0))
+  let m := (sortByKey s.classes).filter (fun e => !(e.2.execs.isEmpty && e.2.prob == .fin 0))
   let lsf := match s.lastFailure with | none => "-" | some t => s!"{t}"
   let cls := m.map (fun e => s!"{e.1}:" ++ ",".intercalate (e.2.execs.map showOutcome))
-  let sp := m.map (fun e => s!"{e.1}:{showRat e.2.prob}")
+  let sp := m.map (fun e => s!"{e.1}:{showStored e.2.prob}")
   "stats=" ++ "|".intercalate (s!"lsf={lsf}" :: cls) ++ " sp=" ++ (if sp.isEmpty then "-" else ",".intercalate sp)
 
 def showRel : Option Bool → String
